@@ -115,6 +115,11 @@ func (e *emitter) binop(n ast.Node, op token.Token, xs, ys string, xt, rt types.
 				return "(decide (" + xs + " " + sym + " " + ys + "))"
 			}
 		}
+		if at, ok := xt.Underlying().(*types.Array); ok && (op == token.EQL || op == token.NEQ) {
+			if b, ok := at.Elem().Underlying().(*types.Basic); ok && b.Info()&types.IsInteger != 0 {
+				return "(decide (" + xs + " " + sym + " " + ys + "))"
+			}
+		}
 		e.g.fail(n, "comparison of %s", xt)
 	case token.LAND:
 		return "(" + xs + " && " + ys + ")"
@@ -300,6 +305,9 @@ func (e *emitter) expr(x ast.Expr) string {
 		ys := e.expr(t.Y)
 		return e.binop(t, t.Op, xs, ys, xt, rt, t.Y)
 	case *ast.IndexExpr:
+		if mt, ok := e.typeOf(t.X).Underlying().(*types.Map); ok {
+			return fmt.Sprintf("(Go.mapGet %s %s %s).1", e.expr(t.X), e.expr(t.Index), e.g.zero(t, mt.Elem()))
+		}
 		raw := e.rawOpt
 		e.rawOpt = false
 		xs := e.expr(t.X)
@@ -403,6 +411,7 @@ func (e *emitter) compositeLit(t *ast.CompositeLit) string {
 		}
 		return "([" + strings.Join(els, ", ") + "] : " + e.lt(t, typ) + ")"
 	case *types.Struct:
+		st := u
 		named, ok := typ.(*types.Named)
 		if !ok {
 			if p, isP := typ.(*types.Pointer); isP {
@@ -410,6 +419,9 @@ func (e *emitter) compositeLit(t *ast.CompositeLit) string {
 			}
 		}
 		if !ok {
+			if st.NumFields() == 0 {
+				return "()"
+			}
 			e.g.fail(t, "anonymous struct literal")
 		}
 		si := e.g.structOf(t, named)
@@ -550,6 +562,11 @@ func (e *emitter) assignTo(l ast.Expr, val string) {
 		}
 		e.assignToRaw(t.X, fmt.Sprintf("{ %s with %s := %s }", base, leanField(t.Sel.Name), val))
 	case *ast.IndexExpr:
+		if _, ok := e.typeOf(t.X).Underlying().(*types.Map); ok {
+			base := e.pureRead(t.X)
+			e.assignTo(t.X, fmt.Sprintf("(Go.mapSet %s %s %s)", base, e.expr(t.Index), val))
+			return
+		}
 		if o, el := e.g.pathObj(e.info, t.X); o != nil && !el && e.g.elemNilable[o] && !e.rawAssign {
 			val = "(some " + val + ")"
 		}
@@ -623,6 +640,17 @@ func (e *emitter) assignStmt(s *ast.AssignStmt) {
 			return
 		}
 	}
+	if len(s.Lhs) == 2 && len(s.Rhs) == 1 {
+		if ix, ok := unparen(s.Rhs[0]).(*ast.IndexExpr); ok {
+			if mt, ok := e.typeOf(ix.X).Underlying().(*types.Map); ok {
+				t := e.fresh("t")
+				e.line("let %s := Go.mapGet %s %s %s", t, e.expr(ix.X), e.expr(ix.Index), e.g.zero(ix, mt.Elem()))
+				e.assignTo(s.Lhs[0], t+".1")
+				e.assignTo(s.Lhs[1], t+".2")
+				return
+			}
+		}
+	}
 	if len(s.Lhs) != len(s.Rhs) {
 		e.g.fail(s, "assignment count mismatch")
 	}
@@ -684,6 +712,11 @@ func (e *emitter) call(call *ast.CallExpr, want int) []string {
 			var args []string
 			for _, a := range call.Args {
 				args = append(args, e.expr(a))
+			}
+			if st := e.fi.cbState[v]; st != nil {
+				names := e.bindResults(fmt.Sprintf("%s %s %s", e.name(v), e.name(st), strings.Join(args, " ")), sig.Results().Len()+1, want+1, true)
+				e.line("let %s := %s", e.name(st), names[0])
+				return names[1:]
 			}
 			if len(args) == 0 {
 				args = []string{"()"}
@@ -787,6 +820,7 @@ func (e *emitter) callTranslated(call *ast.CallExpr, callee *fnInfo, want int) [
 		arg ast.Expr
 	}
 	var wbs []ast.Expr
+	var consumed []string
 	nfixed := len(callee.params)
 	variadic := sig.Variadic()
 	for i, p := range callee.params {
@@ -811,11 +845,25 @@ func (e *emitter) callTranslated(call *ast.CallExpr, callee *fnInfo, want int) [
 		if callee.mut[i] {
 			wbs = append(wbs, a)
 		}
+		if callee.consume[i] {
+			id, ok := unparen(a).(*ast.Ident)
+			if !ok {
+				e.g.fail(a, "argument of a consuming parameter must be a variable")
+			}
+			if v, ok := e.info.Uses[id].(*types.Var); ok {
+				consumed = append(consumed, e.name(v))
+			} else {
+				e.g.fail(a, "argument of a consuming parameter must be a variable")
+			}
+		}
 	}
 	have := sig.Results().Len() + len(wbs)
 	names := e.bindResults(fmt.Sprintf("%s %s", callee.lean, strings.Join(args, " ")), have, want, true)
 	for i, a := range wbs {
 		e.writeBack(a, names[sig.Results().Len()+i])
+	}
+	for _, c := range consumed {
+		e.line("let %s := ()", c)
 	}
 	if names == nil {
 		return nil
@@ -869,6 +917,9 @@ func (e *emitter) callLib(call *ast.CallExpr, lib string, want int) []string {
 		return []string{"(" + base + " ++ [" + strings.Join(els, ", ") + "])"}
 	case "make":
 		t := e.typeOf(call)
+		if _, ok := t.Underlying().(*types.Map); ok {
+			return []string{"([] : " + e.lt(call, t) + ")"}
+		}
 		sl, ok := t.Underlying().(*types.Slice)
 		if !ok {
 			e.g.fail(call, "make of %s", t)
@@ -881,6 +932,15 @@ func (e *emitter) callLib(call *ast.CallExpr, lib string, want int) []string {
 		}
 		e.line("let %s ← Go.makeList %s %s", v, z, n)
 		return []string{v}
+	case "golang.org/x/exp/slices.SortFunc", "slices.SortFunc":
+		v := e.fresh("t")
+		e.line("let %s ← Go.sortFunc %s %s", v, arg(0), arg(1))
+		e.writeBack(call.Args[0], v)
+		return nil
+	case "delete":
+		base := e.pureRead(call.Args[0])
+		e.assignTo(call.Args[0], fmt.Sprintf("(Go.mapDel %s %s)", base, arg(1)))
+		return nil
 	case "copy":
 		d, s := arg(0), arg(1)
 		nd, nn := e.fresh("t"), e.fresh("t")
